@@ -175,12 +175,20 @@ class Builder:
             if dt.kind == "c":
                 vals = [complex(vals[i], vals[i + 1]) for i in range(0, len(vals), 2)]
             return np.array(vals, dtype=dt).reshape(r[2])
-        if t == "mk_tensor":      # ["mk_tensor", dtype, shape, requires_grad, param, values]
+        if t == "mk_tensor":      # ["mk_tensor", dtype, shape, requires_grad, origin, values]
+            # origin: False = plain leaf, True = nn.Parameter, "nonleaf" = result of a computation
+            # (has a grad_fn; requires_grad comes from the graph), "view" = a view into a larger storage
             x = torch.tensor(r[5], dtype=getattr(torch, r[1])).reshape(r[2])
-            if r[4]:
+            if r[4] is True:
                 return torch.nn.Parameter(x, requires_grad=r[3])
+            if r[4] == "view":
+                big = torch.cat([x.reshape(-1), x.reshape(-1), x.reshape(-1)])
+                n = x.numel()
+                x = big[n:2 * n].reshape(r[2])
             if r[3]:
                 x.requires_grad_(True)
+                if r[4] == "nonleaf":
+                    x = x * 1.0
             return x
         if t == "mk_module":      # ["mk_module", zoo name, seed]
             torch.manual_seed(r[2])
@@ -286,6 +294,14 @@ def gen_tensor(rng):
     vals = [(rng.choice([0.0, 1.5, -2.0, 0.25]) if isf else (rng.chance(0.5) if dt == "bool" else rng.randint(0, 9))) for _ in range(n)]
     rg = isf and rng.chance(0.5)
     param = isf and rng.chance(0.25)
+    if not param:
+        # a third of the plain tensors are results of a computation (non-leaf, requires_grad kept
+        # by the graph) or views into a larger storage
+        u = rng.random()
+        if rg and u < 0.4:
+            param = "nonleaf"
+        elif u > 0.8:
+            param = "view"
     return ["mk_tensor", dt, shape, rg, param, vals]
 
 
